@@ -694,7 +694,7 @@ def _iter_alts(eng, st, fr, it, depth=0):
 def iter_adaptor(kind):
     def f(eng, st, fr, args, fn, site):
         it = args[0]
-        if it[0] == 't' and it[1] in ('arr_iter', 'iter_filter', 'iter_map'):
+        if it[0] == 't' and it[1] in ('arr_iter', 'iter_filter', 'iter_map', 'recv_iter', 'repeat_with'):
             return T(kind, it, args[1])
         return None
     return f
@@ -806,6 +806,143 @@ def iter_try_for_each(fallible):
             for cs, st_k in live:
                 out.append((('agg', RES, 'Ok', (unit,)) if fallible else unit, cs, list(st_k.effects), dict(st_k.store)))
         return out
+    return f
+
+
+RECV = 'std::sync::mpsc::Receiver::<T>::recv'
+
+
+def recv_iter(eng, st, fr, args, fn, site):
+    """Receiver::iter(&rx) / (&rx).into_iter(): the blocking iterator -- every `next` is a `recv`, the end is its Err"""
+    return T('recv_iter', args[0])
+
+
+def repeat_with(eng, st, fr, args, fn, site):
+    return T('repeat_with', args[0])
+
+
+def _endless_step(eng, st, fr, it, site, depth=0):
+    """one `next()` of an iterator over an endless source (a mailbox, `repeat_with`) behind `map` / `filter`:
+    alternatives [(item | None for "ended" | LOOP for "nothing this time", conds, state)], or None"""
+    from .psi import LOOP_CONTINUE
+    if it[0] != 't' or depth > 4:
+        return None
+    if it[1] == 'recv_iter':
+        st2 = st.copy()
+        n = len(st2.effects)
+        rx = it[2][0]
+        st2.effects.append({'kind': 'call', 'callee': RECV, 'declared': RECV, 'args': [rx], 'site': site or (fr.body.path, fr.bb, fr.body.where(fr.bb)),
+                            'tracing': False, 'fn': None, 'pointees': [eng.load(st2, rx[1]) if rx[0] == 'ref' else None]})
+        r = T('call', RECV, n, rx)
+        return [(T('field', T('as', r, 'Ok'), '0'), [(T('discr', r), '==', 0)], st2), (None, [(T('discr', r), '==', 1)], st2.copy())]
+    if it[1] == 'repeat_with':
+        alts = eng.apply_fn(st.copy(), fr, it[2][0] if it[2][0][0] != 'ref' else eng.load(st, it[2][0][1]), [])
+        if alts is None:
+            return None
+        out = []
+        for a_ in alts:
+            st_n = st.copy()
+            if len(a_) > 2 and a_[2] is not None:
+                st_n.effects = list(a_[2])
+            if len(a_) > 3 and a_[3] is not None:
+                st_n.store = dict(a_[3])
+            out.append((a_[0], list(a_[1]), st_n))
+        return out
+    if it[1] in ('iter_map', 'iter_filter'):
+        inner = _endless_step(eng, st, fr, it[2][0], site, depth + 1)
+        if inner is None:
+            return None
+        out = []
+        for item, conds, st_k in inner:
+            if item is None or item == LOOP_CONTINUE:
+                out.append((item, conds, st_k))
+                continue
+            arg = item
+            if it[1] == 'iter_filter':
+                h = ('H', 320000 + st_k.next_heap)
+                st_k.next_heap += 1
+                st_k.store[(h, ())] = item
+                arg = ('ref', (h, ()))
+            alts = eng.apply_fn(st_k, fr, it[2][1], [arg])
+            if alts is None:
+                return None
+            for a_ in alts:
+                st_n = st_k.copy()
+                if len(a_) > 2 and a_[2] is not None:
+                    st_n.effects = list(a_[2])
+                if len(a_) > 3 and a_[3] is not None:
+                    st_n.store = dict(a_[3])
+                v, c2 = a_[0], conds + list(a_[1])
+                if it[1] == 'iter_map':
+                    out.append((v, c2, st_n))
+                elif is_int_const(v):
+                    out.append((item if v[1] else LOOP_CONTINUE, c2, st_n))
+                else:
+                    out.append((item, c2 + [(v, '==', 1)], st_n))
+                    out.append((LOOP_CONTINUE, c2 + [(v, '==', 0)], st_n.copy()))
+        return out
+    return None
+
+
+def is_endless(it, depth=0):
+    return it[0] == 't' and depth < 5 and (it[1] in ('recv_iter', 'repeat_with') or (it[1] in ('iter_map', 'iter_filter') and is_endless(it[2][0], depth + 1)))
+
+
+def endless_consume(how):
+    """any / all / find over an iterator with an endless source: ONE iteration of the loop the adaptor hides -- the result
+    when this iteration decides it, 'goes round again' otherwise"""
+    from .psi import LOOP_CONTINUE
+
+    def f(eng, st, fr, args, fn, site):
+        d = ptr_term(args[0])
+        it = eng.load(st, d[1]) if d[0] == 'ref' else args[0]
+        if not is_endless(it):
+            return None
+        steps = _endless_step(eng, st, fr, it, site)
+        if steps is None:
+            return None
+        out = []
+        for item, conds, st_k in steps:
+            if item == LOOP_CONTINUE:
+                out.append((LOOP_CONTINUE, conds, list(st_k.effects), dict(st_k.store)))
+                continue
+            if item is None:
+                v_end = {'any': C(0, 'bool'), 'all': C(1, 'bool'), 'find': ('agg', OPT, 'None', ())}[how]
+                out.append((v_end, conds, list(st_k.effects), dict(st_k.store)))
+                continue
+            arg = item
+            if how == 'find':
+                h = ('H', 330000 + st_k.next_heap)
+                st_k.next_heap += 1
+                st_k.store[(h, ())] = item
+                arg = ('ref', (h, ()))
+            alts = eng.apply_fn(st_k, fr, args[1], [arg])
+            if alts is None:
+                return None
+            for a_ in alts:
+                st_n = st_k.copy()
+                if len(a_) > 2 and a_[2] is not None:
+                    st_n.effects = list(a_[2])
+                if len(a_) > 3 and a_[3] is not None:
+                    st_n.store = dict(a_[3])
+                v, c2 = a_[0], conds + list(a_[1])
+                for truth in ((bool(v[1]),) if is_int_const(v) else (True, False)):
+                    c3 = c2 if is_int_const(v) else c2 + [(v, '==', int(truth))]
+                    decided = truth if how in ('any', 'find') else (not truth)
+                    if decided:
+                        val = {'any': C(1, 'bool'), 'all': C(0, 'bool'), 'find': ('agg', OPT, 'Some', (item,))}[how]
+                    else:
+                        val = LOOP_CONTINUE
+                    s_use = st_n if truth is True or is_int_const(v) else st_n.copy()
+                    out.append((val, c3, list(s_use.effects), dict(s_use.store)))
+        return out
+    return f
+
+
+def _or_else(first, second):
+    def f(eng, st, fr, args, fn, site):
+        r = first(eng, st, fr, args, fn, site)
+        return r if r is not None else second(eng, st, fr, args, fn, site)
     return f
 
 
@@ -1231,7 +1368,7 @@ SUMMARIES = {
     'std::num::NonZero::<T>::new': nonzero_new,
     'std::num::nonzero::NonZero::<T>::get': lambda e, s_, f, a, fn, site: a[0],
     'std::num::NonZero::<T>::get': lambda e, s_, f, a, fn, site: a[0],
-    'std::iter::Iterator::find': iter_find,
+    'std::iter::Iterator::find': _or_else(endless_consume('find'), iter_find),
     'std::mem::size_of_val': size_of_val,
     'nix::sys::time::TimeSpec::from_timespec': ts_from,
     'nix::sys::time::TimeSpec::from_duration': lambda e, s, f, a, fn, site: T('ts_from_duration', a[0]),
@@ -1335,6 +1472,11 @@ SUMMARIES = {
     'std::iter::Iterator::filter': iter_adaptor('iter_filter'),
     'std::iter::Iterator::map': iter_adaptor('iter_map'),
     'std::iter::Iterator::max': iter_consume('max'),
+    'std::sync::mpsc::Receiver::<T>::iter': recv_iter,
+    "<&'a std::sync::mpsc::Receiver<T> as std::iter::IntoIterator>::into_iter": recv_iter,
+    'std::iter::repeat_with': repeat_with,
+    'std::iter::Iterator::any': endless_consume('any'),
+    'std::iter::Iterator::all': endless_consume('all'),
     'std::iter::Iterator::try_for_each': iter_try_for_each(True),
     'std::iter::Iterator::for_each': iter_try_for_each(False),
     'std::iter::Iterator::min': iter_consume('min'),
